@@ -6,13 +6,13 @@ C07 program generator (deterministic, stdlib only).
 
 writes, below <out>/src:
 
-    gen_shared.rs              type definitions shared by every shard (`include!`d)
+    gen_sh_{vals,wide,slim,enum}.rs   shared type definitions (`include!`d by the shards that use them)
     gen_shared.json            data description of those types (attribute trees)
-    gen_shard_NN.rs / .json    per-shard roots (NN = 00..14) and their description
+    gen_shard_NN.rs / .json    per-shard roots (NN = 00..44) and their description
     gen_concat_NN.rs           the slice of the `Concatenated` boundary sweep run by shard NN
     gen_manifest.json          what was generated (definitions, configurations per shard)
 
-The bin targets are FIXED files (src/bin/c07.rs, src/bin/c07_shard_00.rs .. c07_shard_14.rs); they
+The bin targets are FIXED files (src/bin/c07.rs, src/bin/c07_shard_00.rs .. c07_shard_44.rs); they
 `include!` the generated files, so the crate builds right after this script ran:
 
     python3 gen.py --tier T --out /verif/harness/vh-progs
@@ -63,7 +63,7 @@ import os
 STYLES = [("none", None), ("pascal", "PascalCase"), ("snake", "snake_case"),
           ("kebab", "kebab-case"), ("preserve", "preserve")]
 PKINDS = ["none", "prefix", "exact"]
-NSHARDS = 15
+NSHARDS = 45
 SEED_MUL = 257  # child seed = s*257 + k + 1 (mirrored in src/run.rs)
 
 
@@ -475,15 +475,17 @@ def emit_concat(shard):
 # ---------------------------------------------------------------------------------------------
 
 def build(tier):
-    shared = []
-    shared += [strenum_ty(si) for si in range(5)]
-    shared += NEWTYPES
-    shared.append(X0)
+    """-> (groups: {group name: [types]}, shards: [{groups, types, roots}])  -- 45 shards:
+    3i+0: Q{i} (+ thorough R{i}_0)   3i+1: P{i}, E{i}_* (+ thorough R{i}_1)
+    3i+2: quick RQ{i} / thorough R{i}_2.
+    (rustc needs ~0.5 MB and ~17 ms per emitted field x prefix chain: 45 bins of <= ~2.5 GB
+    instead of 15 bins of 6 GB keep 16 parallel jobs inside 64 GB)"""
+    groups = {}
+    groups["vals"] = [strenum_ty(si) for si in range(5)] + NEWTYPES
     # W = wide leaf (every leaf kind; 2-level space), K = slim leaf (depth-3 space)
-    shared += [struct_ty("W%d" % v, "L", v, "subfield", leaf_fields(), []) for v in range(15)]
-    shared += [struct_ty("K%d" % v, "L", v, "subfield", slim_fields(), []) for v in range(15)]
+    groups["wide"] = [struct_ty("W%d" % v, "L", v, "subfield", leaf_fields(), []) for v in range(15)]
     enums = [enum_ty(v, t) for v in range(15) for t in range(5)]
-    shared += enums
+    groups["enum"] = [X0] + enums
 
     def own(level):
         lo = level.lower()
@@ -491,30 +493,28 @@ def build(tier):
                 fld(lo + "_named", "named", "name", val("u64", 1), name=level + "d.Named-x")]
 
     full_edges = lambda lvl: [(e, "%s%d" % (lvl, c), c) for e in range(3) for c in range(15)]
+    kind_edges = lambda lvl, e: [(e, "%s%d" % (lvl, c), c) for c in range(15)]
 
     def rot_edges(lvl, v):
         pk = v % 3
         return [(e, "%s%d" % (lvl, sc * 3 + (pk + sc) % 3), sc * 3 + (pk + sc) % 3)
                 for e in range(3) for sc in range(5)]
 
+    slim = [struct_ty("K%d" % v, "L", v, "subfield", slim_fields(), []) for v in range(15)]
     if tier == "quick":
         # reduced depth-3: MQ{v} -> 15 leaf edges, RQ{v} -> 15 MQ edges
-        shared += [struct_ty("MQ%d" % v, "M", v, "subfield_owned", own("M"), rot_edges("K", v)) for v in range(15)]
+        slim += [struct_ty("MQ%d" % v, "M", v, "subfield_owned", own("M"), rot_edges("K", v)) for v in range(15)]
     else:
-        shared += [struct_ty("M%d" % v, "M", v, "subfield_owned", own("M"), full_edges("K")) for v in range(15)]
+        slim += [struct_ty("M%d" % v, "M", v, "subfield_owned", own("M"), full_edges("K")) for v in range(15)]
+    groups["slim"] = slim
 
     shards = []
-    for i in range(NSHARDS):
-        tys = []
-        roots = []  # (type name, [seeds])
-        tys.append(struct_ty("Q%d" % i, "Q", i, "root", own("Q"), full_edges("W")))
-        roots.append(("Q%d" % i, [0]))
-        if tier == "quick":
-            tys.append(struct_ty("RQ%d" % i, "R", i, "root", own("R"), rot_edges("MQ", i)))
-            roots.append(("RQ%d" % i, [1]))
-        else:
-            tys.append(struct_ty("R%d" % i, "R", i, "root", own("R"), full_edges("M")))
-            roots.append(("R%d" % i, [2]))
+    for i in range(15):
+        a = {"groups": ["vals", "wide"], "types": [], "roots": []}
+        b = {"groups": ["enum"], "types": [], "roots": []}
+        c = {"groups": [], "types": [], "roots": []}
+        a["types"].append(struct_ty("Q%d" % i, "Q", i, "root", own("Q"), full_edges("W")))
+        a["roots"].append(("Q%d" % i, [0]))
         # enum parents: the parent's prefix kind rotates (x = 5*container variant + tag kind; the
         # three parents of one style together hold every enum type); quick leaves out the two
         # tag kinds without `sample_group` flag variation (t = 1 and 3 are the unflagged ones)
@@ -522,12 +522,23 @@ def build(tier):
         if tier == "quick":
             sel = [x for x in sel if x % 5 in (0, 2, 4)]
         pedges = [(e, enums[x]["name"], None) for e in range(3) for x in sel]
-        tys.append(struct_ty("P%d" % i, "P", i, "root", own("P"), pedges))
-        roots.append(("P%d" % i, list(range(NV))))
+        b["types"].append(struct_ty("P%d" % i, "P", i, "root", own("P"), pedges))
+        b["roots"].append(("P%d" % i, list(range(NV))))
         for t in range(5):
-            roots.append(("E%d_%d" % (i, t), list(range(NV))))
-        shards.append({"types": tys, "roots": roots})
-    return shared, shards
+            b["roots"].append(("E%d_%d" % (i, t), list(range(NV))))
+        if tier == "quick":
+            c["groups"].append("slim")
+            c["types"].append(struct_ty("RQ%d" % i, "R", i, "root", own("R"), rot_edges("MQ", i)))
+            c["roots"].append(("RQ%d" % i, [1]))
+        else:
+            for e, sh in enumerate((a, b, c)):
+                sh["groups"].append("slim")
+                name = "R%d_%d" % (i, e)
+                sh["types"].append(struct_ty(name, "R", i, "root", own("R"), kind_edges("M", e)))
+                sh["roots"].append((name, [2 + e]))
+        shards += [a, b, c]
+    assert len(shards) == NSHARDS
+    return groups, shards
 
 
 def count_paths(types_by_name, name, memo):
@@ -552,7 +563,7 @@ def main():
     src = os.path.join(args.out, "src")
     os.makedirs(src, exist_ok=True)
 
-    shared, shards = build(args.tier)
+    groups, shards = build(args.tier)
 
     def write(name, text):
         # unchanged files keep their mtime, so a repeated check does not recompile anything
@@ -566,7 +577,10 @@ def main():
         with open(path, "w") as fh:
             fh.write(text)
 
-    write("gen_shared.rs", emit_types(shared))
+    shared = []
+    for g, tys in sorted(groups.items()):
+        write("gen_sh_%s.rs" % g, emit_types(tys))
+        shared += tys
     write("gen_shared.json", json.dumps({"types": shared}, indent=0, sort_keys=True))
     by_name = {t["name"]: t for t in shared}
     manifest = {"tier": args.tier, "shards": [], "shared_type_definitions": len(shared)}
@@ -576,7 +590,10 @@ def main():
         names = dict(by_name)
         names.update({t["name"]: t for t in sh["types"]})
         memo = {}
-        body = emit_types(sh["types"])
+        body = "// @generated by gen.py -- do not edit\n"
+        for g in sh["groups"]:
+            body += 'include!("gen_sh_%s.rs");\n' % g
+        body += emit_types(sh["types"])
         body += "pub fn run_roots(sh: &mut vh_progs::run::Shard) {\n"
         paths = 0
         for (r, seeds) in sh["roots"]:
@@ -591,7 +608,7 @@ def main():
         total_defs += len(sh["types"])
         total_paths += paths
         manifest["shards"].append({
-            "shard": i, "type_definitions": len(sh["types"]),
+            "shard": i, "type_definitions": len(sh["types"]), "shared_groups": sh["groups"],
             "roots": [[r, len(s)] for r, s in sh["roots"]],
             "root_to_leaf_configurations": paths, "concat_pairs": n2, "concat_triples": n3})
     manifest["type_definitions"] = total_defs
